@@ -705,6 +705,10 @@ func (c *Client) receipts(ctx context.Context, url string, bm blockmap, start, l
 		}
 		b.Header.Hash.Write(resps[i].Result[0].BlockHash)
 		for j := range resps[i].Result {
+			if uint64(resps[i].Result[j].BlockNum) != blockNum {
+				const tag = "eth_getBlockReceipts mixed blocks in one response. num=%d want=%d"
+				return fmt.Errorf(tag, resps[i].Result[j].BlockNum, blockNum)
+			}
 			tx := b.Tx(uint64(resps[i].Result[j].TxIdx))
 			tx.PrecompHash.Write(resps[i].Result[j].TxHash)
 			tx.Type.Write(byte(resps[i].Result[j].TxType))
@@ -866,6 +870,10 @@ func (c *Client) traces(ctx context.Context, url string, bm blockmap, start, lim
 
 		var tracesByTx = map[key][]traceBlockResult{}
 		for i := range res.Result {
+			if res.Result[i].BlockNum != block.Num() {
+				const tag = "trace_block mixed blocks in one response. num=%d want=%d"
+				return fmt.Errorf(tag, res.Result[i].BlockNum, block.Num())
+			}
 			k := key{block.Num(), uint64(res.Result[i].TxIdx)}
 			if traces, ok := tracesByTx[k]; ok {
 				tracesByTx[k] = append(traces, res.Result[i])
